@@ -318,6 +318,23 @@ func arithOne(ctx *fw.Ctx, ev *arithEval, st *arithState) {
 		if ev.N != 0 {
 			st.prevSum = got
 		}
+		if len(got) == 16 && ev.N != 0 && (ev.N+uint64(p))%5 == 0 && new(big.Int).SetBytes(got).Cmp(wantSum) == 0 {
+			// the same question asked again, and again after the caller has used an earlier answer as scratch
+			// space (a result is the caller's own: masking it in place, or-ing a host part into it is normal)
+			again, err2 := allocators.AddPrefixes(baseArg, ev.N, uint64(p))
+			if err2 == nil && len(again) == 16 {
+				scribble16(again)
+			}
+			third, err3 := allocators.AddPrefixes(baseArg, ev.N, uint64(p))
+			ctx.Count("arith.repeated_after_writing_into_a_result", 1)
+			if err3 != nil || len(third) != 16 || new(big.Int).SetBytes(third).Cmp(wantSum) != 0 {
+				report("result-not-the-callers-own", "AddPrefixes = %s; asked again, the answer was overwritten in place by its caller; asked a third time it returns %s, %v (want %s)", got, third, err3, IPOf(wantSum))
+			}
+			if new(big.Int).SetBytes(got).Cmp(wantSum) != 0 {
+				report("result-not-the-callers-own", "the first answer reads %s after a later answer to the same question was overwritten by its caller (want %s)", got, IPOf(wantSum))
+				copy(got, IPOf(wantSum))
+			}
+		}
 		if len(got) != 16 || new(big.Int).SetBytes(got).Cmp(wantSum) != 0 {
 			report("addprefixes-value", "AddPrefixes = %s, want %s", got, IPOf(wantSum))
 		} else {
@@ -366,4 +383,10 @@ func pclass(p int) string {
 		return "66-127"
 	}
 	return "128"
+}
+
+func scribble16(b []byte) {
+	for i := range b {
+		b[i] ^= 0xa5
+	}
 }
